@@ -17,3 +17,4 @@ PROP = {'engine': 'core',
                'operation are only exercised by the concurrent batches; Clear is followed by an explicit SetCount because the expected count after '
                'Clear is not part of the property',
  'technique': 'property-based testing (rapid), stateful model-based: abstract latch as reference model'}
+PROP['rule'] += " Round-6 correction of the harness: a cleared barrier expects its initial count (as a new one does); the model says so and the waiters are judged right after Clear, before the harness sets the counts for the next use (SetCount's own wake-up used to hide a missing one in Clear); a quarter of the single gates have initial count 0."
